@@ -7369,7 +7369,8 @@ class FrameAsType:
             consolidate_blocks: bool = True,
             ) -> 'Frame':
 
-        if self.column_key == NULL_SLICE:
+        # NOTE: an array key cannot be compared to a slice with ==
+        if self.column_key.__class__ is slice and self.column_key == NULL_SLICE:
             if is_mapping(dtypes):
                 # translate keys loc to iloc
                 dtypes = {self.container._columns._loc_to_iloc(k): v
